@@ -192,7 +192,7 @@ def iv_case(res, hap, kind, blocks, strand, api, cds=None, f0=0):
             res.extra["iv_cds_inadmissible"] += 1
             return
     case = dict(leg="iv", kind=kind, N=hap.N, rot=hap.rot, edits=[list(e) for e in hap.edits], blocks=[list(b) for b in blocks],
-                strand=strand, window=list(hap.window) if hap.window else None, api=api, cds=list(cds) if cds else None, f0=f0)
+                strand=strand, window=list(hap.window) if hap.window else None, api=api, cds=list(cds) if cds else None, f0=f0, noid=getattr(hap, "noid", False))
     obj = build_interval(kind, blocks, strand, hap.parent, cds, f0)
     before = meta(obj)
     target = hap.single if api == "single" else hap.coll
@@ -293,6 +293,13 @@ def run_iv(res, p, i, n):
                 iv_case(res, hap, "feat", blocks, strand, "collection")
                 iv_case(res, hap, "tx", blocks, strand, "collection")
                 if window is None:
+                    # the same on a chromosome that has sequence but no identifier
+                    if "noid" not in haps:
+                        haps["noid"] = C.Hap(N, rot, edits, None, noid=True)
+                    iv_case(res, haps["noid"], "feat", blocks, strand, "collection")
+                    iv_case(res, haps["noid"], "tx", blocks, strand, "collection", cds=places[-1], f0=0)
+                    if haps["noid"].single is not None:
+                        iv_case(res, haps["noid"], "feat", blocks, strand, "single")
                     if hap.single is not None:
                         iv_case(res, hap, "feat", blocks, strand, "single")
                         iv_case(res, hap, "cds", blocks, strand, "single", f0=0)
@@ -602,7 +609,7 @@ def run_agg(res, p, i, n):
 def replay(res, case):
     edits = tuple((s, e, a) for s, e, a in case["edits"])
     window = tuple(case["window"]) if case.get("window") else None
-    hap = C.Hap(case["N"], case["rot"], edits, window)
+    hap = C.Hap(case["N"], case["rot"], edits, window, noid=bool(case.get("noid")))
     if case["leg"] == "iv" and case.get("cross"):
         ivx_case(res, hap, case["kind"], tuple(tuple(b) for b in case["blocks"]), case["strand"], tuple(case["fwin"]),
                  api=case["api"], cds=case.get("cds", False))
